@@ -662,6 +662,15 @@ REGISTRY.append(ScaleMeanBlocks())
 class ScaleMeanStddevBlocks(_ScaleContract):
     cls = "_ScaleMeanStddev"
     what = "sd"
+    # the subtotal-vector obligation (NaN-skipping sums of squared deviations under a square
+    # root) is beyond the solver with symbolic sizes: bounded stand-in (concrete sizes,
+    # symbolic contents); the respondent-level oracle of e2e_c.ScaleStats covers it end to end
+    tier = "B"
+
+    def size_space(self, cfg):
+        return {"R": [1, 2, 3], "C": [1, 2, 3], "rows.S": [0, 1, 2], "cols.S": [0, 1, 2],
+                "rows.add.n[0]": [1], "rows.sub.n[0]": [0], "rows.add.n[1]": [1], "rows.sub.n[1]": [0],
+                "cols.add.n[0]": [1], "cols.sub.n[0]": [0], "cols.add.n[1]": [1], "cols.sub.n[1]": [0]}
 
     def som(self, B, env, values, cfg):
         ccname = "column_comparable_counts" if cfg["o"] == "rows" else "row_comparable_counts"
@@ -672,14 +681,29 @@ class ScaleMeanStddevBlocks(_ScaleContract):
         # states they are the respondent-level means); here they are opaque vectors
         n0 = env.R if cfg["o"] == "rows" else env.C
         n1 = env.rows.S if cfg["o"] == "rows" else env.cols.S
-        self._means = [B.tensor("scale_mean0", (n0,), maybe_nan=True), B.tensor("scale_mean1", (n1,), maybe_nan=True)]
+        # (a NaN mean only occurs for a vector without valued respondents, where the deviation
+        # is NaN whatever the mean is: finite opaque means lose nothing)
+        self._means = [B.tensor("scale_mean0", (n0,)), B.tensor("scale_mean1", (n1,))]
+        # the comparable counts are opaque as well (their own contract: _Row/_ColumnComparableCounts)
+        R, C = env.R, env.C
+        # (a difference vector arrives as an all-NaN vector: contract of the comparable counts)
+        if cfg["o"] == "rows":
+            val, dflag = B.tensor("cc10", (env.rows.S, C)), B.tensor("isdiff", (env.rows.S,), integer=True)
+            sub = B.spec_tensor((env.rows.S, C), lambda s_, j: B.ite(B.rd(dflag, s_) == 1, B.NaN(), B.rd(val, s_, j)))
+            self._cnt = [B.tensor("cc00", (R, C), nonneg=True), sub]
+            blocks = [[self._cnt[0], None], [self._cnt[1], None]]
+        else:
+            val, dflag = B.tensor("cc01", (R, env.cols.S)), B.tensor("isdiff", (env.cols.S,), integer=True)
+            sub = B.spec_tensor((R, env.cols.S), lambda i, t: B.ite(B.rd(dflag, t) == 1, B.NaN(), B.rd(val, i, t)))
+            self._cnt = [B.tensor("cc00", (R, C), nonneg=True), sub]
+            blocks = [[self._cnt[0], self._cnt[1]], [None, None]]
         return {
-            ccname: blocks_stub(B, ccname, self._comparable(B, env, cfg)),
+            ccname: blocks_stub(B, ccname, blocks),
             smname: blocks_stub(B, smname, self._means),
         }
 
     def expected(self, B, env, values, cfg):
-        return spec.scale_blocks(B, env, env.w, values, cfg["o"], "sd", means=self._means)
+        return spec.scale_blocks(B, env, env.w, values, cfg["o"], "sd", means=self._means, counts=self._cnt)
 
     def _comparable(self, B, env, cfg):
         from .matrix_subtotals_c import sum_blocks_spec
@@ -944,3 +968,131 @@ class PairwiseLemmas(Contract):
 
 
 REGISTRY.append(PairwiseLemmas())
+
+
+
+class ComparableCounts(_BlocksContract):
+    """_ColumnComparableCounts / _RowComparableCounts: signed-merge counts with differences in
+    the *other* direction NaN; undefined (ValueError) across an array dimension"""
+
+    props = ("C04", "C14")
+    cls = None
+    side = None
+
+    def run(self, B, cfg):
+        from .matrix_subtotals_c import sum_blocks_spec
+
+        env = self.env(B, cfg)
+        obj = B.new("%s:%s" % (MOD, self.cls), env.dims, B.stub("second_order_measures"), env.cube_measures)
+        defined = cfg["cc"] if self.side == "column" else cfg["rc"]
+        try:
+            blocks = obj.blocks
+        except ValueError:
+            B.check("undefined-only-across-array-dimension", not defined)
+            return
+        B.check("defined-only-without-array-dimension", defined)
+        exp = sum_blocks_spec(B, env.w.counts, env.R, env.C, env.rows, env.cols, self.side == "row", self.side == "column")
+        check_blocks(B, "blocks", blocks, exp)
+
+
+REGISTRY.append(type("C_ColCmp", (ComparableCounts,), dict(cls="_ColumnComparableCounts", side="column"))())
+REGISTRY.append(type("C_RowCmp", (ComparableCounts,), dict(cls="_RowComparableCounts", side="row"))())
+
+
+
+class ScaleMeanStderr(Contract):
+    """_ScaleMeanStderr.blocks: standard deviation over the square root of the vector's
+    weighted margin; defined only when both are"""
+
+    name = MOD + ":_ScaleMeanStderr.blocks"
+    props = ("C14",)
+
+    def configs(self):
+        return [dict(o=o, sd=a, mg=b) for o in ("rows", "columns") for a in (True, False) for b in (True, False)]
+
+    def size_space(self, cfg):
+        return {"N": [0, 1, 2], "S": [0, 1, 2]}
+
+    def run(self, B, cfg):
+        MO = B.enum("enums:MARGINAL_ORIENTATION")
+        N, S = B.size("N"), B.size("S")
+        sd = [B.tensor("sd0", (N,), nonneg=True, maybe_nan=True), B.tensor("sd1", (S,), nonneg=True, maybe_nan=True)]
+        mg = [B.tensor("mg0", (N,), nonneg=True, maybe_nan=True), B.tensor("mg1", (S,), nonneg=True, maybe_nan=True)]
+        other = B.stub("other-orientation")
+        pre = "rows" if cfg["o"] == "rows" else "columns"
+        som = B.stub(
+            "second_order_measures",
+            **{pre + "_scale_mean_stddev": B.stub("stddev", blocks=sd, is_defined=cfg["sd"]),
+               pre + "_weighted_base": B.stub("margin", blocks=mg, is_defined=cfg["mg"])}
+        )
+        obj = B.new("%s:_ScaleMeanStderr" % MOD, (B.stub("r"), B.stub("c")), som, B.stub("cm"), MO.ROWS if cfg["o"] == "rows" else MO.COLUMNS)
+        try:
+            blocks = obj.blocks
+        except ValueError:
+            B.check("undefined-only-when-sd-or-margin-undefined", not (cfg["sd"] and cfg["mg"]))
+            return
+        B.check("defined-only-when-both-defined", cfg["sd"] and cfg["mg"])
+        for b, n in ((0, N), (1, S)):
+            B.eq_tensor("blocks[%d]" % b, blocks[b], B.spec_tensor((n,), lambda x, b=b: B.rd(sd[b], x) / B.sqrt(B.rd(mg[b], x))))
+
+
+REGISTRY.append(ScaleMeanStderr())
+
+
+class WeightedMedian(Contract):
+    """_ScaleMedian._weighted_median(sorted_counts, sorted_values): for integer counts the
+    median of the expanded multiset of respondent values: (L + U) / 2 with L / U the values at
+    0-based positions floor((N-1)/2) / floor(N/2) of the value-sorted respondents; NaN counts
+    (difference vectors) count as 0; NaN when nobody has a value."""
+
+    name = MOD + ":_ScaleMedian._weighted_median"
+    props = ("C14",)
+    tier = "B"
+
+    def size_space(self, cfg):
+        return {"n": [1, 2, 3, 4]}
+
+    def run(self, B, cfg):
+        n = B.size("n", lo=1)
+        counts = B.tensor("counts", (n,), nonneg=True, integer=True)
+        values = B.tensor("values", (n,))
+        nn = int(n)
+        # sorted, duplicate-free not required: non-decreasing
+        for k in range(nn - 1):
+            if B.mode != "C":
+                B.c.assume(__import__("pvc").core.raw(B.rd(values, k) <= B.rd(values, k + 1)))
+        if B.mode == "C":
+            import numpy as np
+
+            order = np.argsort(values)
+            values = values[order]
+            counts = np.round(counts[order])
+        fn = B.cls("%s:_ScaleMedian" % MOD)._weighted_median
+        got = fn(counts, values)
+        # oracle: positions in the expanded multiset
+        cum = []
+        acc = 0
+        for k in range(nn):
+            acc = acc + B.rd(counts, k)
+            cum.append(acc)
+        N = cum[-1]
+
+        def value_at(pos_times2_plus, half):
+            """value of the respondent at 0-based position p where 2p == N-1 (half) rounded down, or p == N/2"""
+            out = B.rd(values, nn - 1)
+            for k in range(nn - 2, -1, -1):
+                # respondent p is in category k iff cum[k] > p  (first such k)
+                out = B.ite(half(cum[k]), B.rd(values, k), out)
+            return out
+
+        # L: first k with cum[k] > floor((N-1)/2)  <=> 2*cum[k] > N-1 ... (integers) <=> 2*cum[k] >= N  when N-1 odd/even handled by integrality
+        L = value_at(None, lambda c: 2 * c >= N)       # p = floor((N-1)/2): cum > p  <=> 2cum > N-1-[(N-1) odd] <=> 2cum >= N
+        U = value_at(None, lambda c: 2 * c > N)        # p = floor(N/2):     cum > p  <=> 2cum > N   (N even) / 2cum >= N+1 (N odd)
+        exp = B.ite(N == 0, B.NaN(), (L + U) / 2)
+        B.eq_scalar("median", got, exp)
+
+    def assumptions(self):
+        return ["integer counts (the statement's case); sorted_values non-decreasing with NaN values removed (contract of _values_sort_order / _sorted_values, checked end-to-end in e2e_c.ScaleStats)"]
+
+
+REGISTRY.append(WeightedMedian())
